@@ -31,6 +31,7 @@ type frame struct {
 	panicking        bool
 	panic            any
 	phitemps         []Value
+	stackBase        int
 }
 
 func (fr *frame) get(key ssa.Value) Value {
@@ -511,10 +512,12 @@ func (ex *Exec) callSSA(caller *frame, callpos token.Pos, fn *ssa.Function, args
 	if ex.initMode && fn.Name() == "init" && fn.Pkg != nil && fn == fn.Pkg.Func("init") && fn.Pkg != ex.initPkg {
 		return nil // other packages initialise lazily
 	}
+	base := len(ex.callStack)
 	if in := ex.eng.intrinsicFor(fn); in != nil {
 		ex.callStack = append(ex.callStack, fn)
-		defer func() { ex.callStack = ex.callStack[:len(ex.callStack)-1] }()
-		return in(ex, fr, args)
+		r := in(ex, fr, args)
+		ex.callStack = ex.callStack[:base]
+		return r
 	}
 	if fn.Blocks == nil {
 		ex.eng.buildFn(fn)
@@ -525,12 +528,13 @@ func (ex *Exec) callSSA(caller *frame, callpos token.Pos, fn *ssa.Function, args
 	if fn.TypeParams().Len() > 0 && len(fn.TypeArgs()) == 0 {
 		ex.unsupported("uninstantiated generic %s", fn)
 	}
-	ex.depth++
-	if ex.depth > 400 {
+	if base > 400 {
 		ex.abort(abBudget, "call depth exceeded in %s", fn)
 	}
+	// The stack is popped on normal return only, so that a panic still shows where
+	// it happened; a frame that recovers a target panic truncates it (runFrame).
 	ex.callStack = append(ex.callStack, fn)
-	defer func() { ex.depth--; ex.callStack = ex.callStack[:len(ex.callStack)-1] }()
+	fr.stackBase = base
 	if ex.res.FuncsUsed != nil {
 		ex.res.FuncsUsed[fn] = true
 	}
@@ -551,6 +555,7 @@ func (ex *Exec) callSSA(caller *frame, callpos token.Pos, fn *ssa.Function, args
 	for fr.block != nil {
 		ex.runFrame(fr)
 	}
+	ex.callStack = ex.callStack[:base]
 	return fr.result
 }
 
@@ -569,6 +574,7 @@ func (ex *Exec) runFrame(fr *frame) {
 		}
 		fr.panicking = true
 		fr.panic = r
+		ex.callStack = ex.callStack[:fr.stackBase+1]
 		fr.runDefers()
 		fr.block = fr.fn.Recover
 		if fr.block == nil {
